@@ -339,6 +339,17 @@ def sim (i : Inp) : String :=
   | some ft, some tf => unwords ("ft" :: fcalls (xfBuilder i.m.apply ft) ++ "tf" :: fcalls tf)
   | _, _ => "panic"
 
+/-- family `mir`: a program and its mirror image (`m` = `(x, y) ↦ (x, −y)`) through the
+builder-side `Flattened` at the same tolerance, with the concrete flattener model, and the two
+call counts (`flatten_transform_reflection_concrete`: equal away from the flattener's sign test
+at 0; observation `C16-obs-flatten-mirror-asymmetry` there) -/
+def mir (i : Inp) : String :=
+  match flatBuilderC i.tol origin i.n i.prog,
+      flatBuilderC i.tol origin i.n (xfBuilder i.m.apply i.prog) with
+  | some fo, some fm =>
+    unwords ("o" :: fcalls fo ++ "m" :: fcalls fm ++ ["n", toString fo.length, toString fm.length])
+  | _, _ => "panic"
+
 /-! ### family `ip`: the iterator-side adapters on ARBITRARY event lists (partial streams)
 
 CASE: `n tol m.. S|G <events with attributes> <advice>`; events as the harness prints them
@@ -404,7 +415,7 @@ def fam (name : String) (f : Inp → String) : Family := Family.plain name (fun 
 def families : List Family := [
   fam "wit" bf, fam "bf" bf, fam "bt" bt, fam "bn" bn, fam "na" na, fam "pb" pb,
   fam "it" it, fam "ix" ix, fam "in" in_, fam "e2e" e2e, fam "e2ep" e2ep,
-  fam "sim" sim, Family.plain "ip" ip ]
+  fam "sim" sim, Family.plain "ip" ip, fam "mir" mir ]
 
 end Lyon.Drive.C16
 
